@@ -254,7 +254,9 @@ func (dm *DMap) setLRUEvictionStats(e *env) error {
 		// manages itself independently. So if you set MaxInuse=70M(in bytes) and
 		// your partition count is 7, every partition consumes 10M in-use space at maximum.
 		// WARNING: Actual allocated memory can be different.
-		if st.Inuse > 0 && st.Inuse >= dm.config.maxInuse/int(ownedPartitionCount) {
+		// The MaxKeys check above may have evicted a key: load the stats again.
+		st = e.fragment.storage.Stats()
+		if st.Length > 0 && st.Inuse > 0 && st.Inuse >= dm.config.maxInuse/int(ownedPartitionCount) {
 			err := dm.evictKeyWithLRU(e)
 			if err != nil {
 				return err
